@@ -1,6 +1,7 @@
 package main
 
 import (
+	"runtime/debug"
 	"crypto/cipher"
 	"encoding/binary"
 	"fmt"
@@ -31,6 +32,7 @@ func sm4Kernels() []sm4Kernel {
 }
 
 func runC05(c *Ctx) {
+	debug.SetPanicOnFault(true) // a fault inside an assembly routine becomes a recoverable panic, reported as "panic"
 	c.res.Rule = "per (key, blocks): portable cryptoBlock and cryptoBlockX2, expandKey vs expandKeyAsm, asm kernels X1/X2/X4/X8/X16 with distinct blocks in every lane, enc and dec, in place and disjoint (three-way: CPU, interpreted listing, specification), public NewCipher/Encrypt/Decrypt with the accelerated path on and off, key slice overwritten after construction, key lengths 0..40; class = (path, direction, aliasing, key pattern); non-trivial = every class except the first uniformly random one"
 	nKeys := 150
 	if c.tier == "thorough" {
@@ -165,6 +167,44 @@ func runC05(c *Ctx) {
 			c.Check3("sm4.api", cl+"/dec-inplace", "sm4.block "+keyHex+" "+ctHex+" dec", "sm4.spec "+keyHex+" "+ctHex+" dec", fmt.Sprintf("ok %x", ct))
 			if string(ct) != string(pt) {
 				c.Disagree(Disagreement{Kind: "impl!=spec", Class: cl + "/roundtrip", Request: "sm4.block " + keyHex + " " + ptHex + " enc", Impl: fmt.Sprintf("%x", ct), Spec: ptHex, Stream: "sm4.api"})
+			}
+		}
+	}
+	// every alignment of key, source and destination (a Go []byte has no alignment guarantee)
+	if asmOK {
+		key := c.rng.Bytes(16)
+		keyHex := fmt.Sprintf("%x", key)
+		for off := 0; off < 16; off++ {
+			buf := make([]byte, 64)
+			copy(buf[off:], key)
+			impl := try(func() string {
+				blk, err := sm4.NewCipher(buf[off : off+16])
+				if err != nil {
+					return "err"
+				}
+				e, d, _ := sm4.VerifRoundKeys(blk)
+				return "ok " + wordsHex(e[:]) + " " + wordsHex(d[:])
+			})
+			cl := fmt.Sprintf("align/key+%d", off%4)
+			c.Case("sm4.api", cl, false, "sm4.expand "+keyHex)
+			c.Check3("sm4.api", cl, "sm4.expand "+keyHex, "sm4.expand.spec "+keyHex, impl)
+		}
+		var enc, dec [32]uint32
+		sm4.VerifExpandKey(key, &enc, &dec)
+		for _, k := range sm4Kernels() {
+			for off := 1; off < 16; off += 3 {
+				blocks := c.rng.Bytes(16 * k.n)
+				sbuf := make([]byte, 16*k.n+32)
+				dbuf := make([]byte, 16*k.n+32)
+				copy(sbuf[off:], blocks)
+				impl := try(func() string {
+					k.f(&enc[0], &dbuf[(off*7)%16+1], &sbuf[off])
+					return fmt.Sprintf("ok %x", dbuf[(off*7)%16+1:(off*7)%16+1+16*k.n])
+				})
+				sreq := "sm4.spec " + keyHex + " " + fmt.Sprintf("%x", blocks) + " enc"
+				cl := fmt.Sprintf("%s/align/src+%d", k.name, off%4)
+				c.Case("sm4.kernel", cl, false, sreq)
+				c.Check3("sm4.kernel", cl, sreq, sreq, impl)
 			}
 		}
 	}
